@@ -3,10 +3,14 @@
    Server side.  Objects, with the goroutine each stands for and what it waits for when it ends:
      server     Server.run            ends on ctx cancel; then joins its listeners            (server.go:354-387)
      listener   TCP accept / UDP read goroutines of the server
-     conn       ServerConn.run        OnConnOpen first; ends on ctx cancel / read error; then closes the socket,
-                                      waits for its reader goroutine, tells session and server (both sends are
-                                      guarded by the receiver's ctx), OnConnClose, close(done)  (server_conn.go:205-243)
-     reader     serverConnReader      ends when the socket is closed
+     conn       ServerConn.run        OnConnOpen first; ends on ctx cancel (Server.Close, ServerConn.Close by the
+                                      application or by the session) / read error; then closes the socket, WAITS FOR
+                                      ITS READER goroutine, and only THEN tells its session (removeConn) and the
+                                      server (both sends are guarded by the receiver's ctx), OnConnClose,
+                                      close(done)                                             (server_conn.go:205-243)
+     reader     serverConnReader      ends when the socket is closed - but not while it is inside a callback: it
+                                      hands every interleaved frame it has buffered to the session's OnPacketRTP /
+                                      OnPacketRTCP and returns to its read only when the callback has returned
      session    ServerSession.run     OnSessionOpen first; ends on ctx cancel / error / timeout / TEARDOWN; then for
                                       every attached conn: Close it and wait for its done (so OnFrame/OnRequest of
                                       that conn can never follow OnSessionClose); leaves the stream; closes its medias
@@ -316,10 +320,11 @@ Definition astep (a : astate) (x : cb) : option astate :=
   match x with
   | CbConnOpen c =>
       if c =? nlen (a_conns a) then Some (mkA (a_conns a ++ [1]) (a_sesss a) (a_cbusy a ++ [0]) (a_srun a)) else None
+  (* the close notification of a connection: it is open and its reader is in no packet callback *)
   | CbConnClose c =>
-      match nnth c (a_conns a) with
-      | Some 1 => Some (mkA (nupd c (fun _ => 2) (a_conns a)) (a_sesss a) (a_cbusy a) (a_srun a))
-      | _ => None
+      match nnth c (a_conns a), nnth c (a_cbusy a) with
+      | Some 1, Some 0 => Some (mkA (nupd c (fun _ => 2) (a_conns a)) (a_sesss a) (a_cbusy a) (a_srun a))
+      | _, _ => None
       end
   | CbSessOpen s c =>
       match nnth c (a_conns a) with
